@@ -85,6 +85,13 @@ func dumpTemplates(ts ledger.TransactionTemplates) any {
 	return m
 }
 
+func fieldTypeName(vd queries.VarDecl) string {
+	if vd.Type == nil {
+		return ""
+	}
+	return queries.FieldTypeToString(vd.Type)
+}
+
 func dumpQueries(qs ledger.QueryTemplates) any {
 	m := map[string]any{}
 	for k, q := range qs {
